@@ -361,6 +361,10 @@ func (s *sim) oracle(kind string, g int, n int64, res string, b, a snapshot, met
 		if live {
 			s.oracleRewindRace(kind, g, n, bp, ap)
 		}
+	case "rignore":
+		if live {
+			s.oracleIgnore(g, n, bp, ap)
+		}
 	case "create":
 		// (6) for stop + create: a group restored from its meta page gets the positions it had,
 		// except that both are lifted to the queue ack when they lie below it
